@@ -3,9 +3,14 @@ import N0Verif.Model.XPath
   Model of `n0struct_findall.py`: `findall` (expression normalisation), `_findall`
   (recursive matcher) and `findfirst`.
 
+  The model follows the code with the repairs `fixes/C19-a.patch` (leading index on a list root)
+  and `fixes/C19-b.patch` (`'..'` looks its target up by xpath and no longer deletes from the
+  stack) applied.
+
   `_findall` has **two mutable default arguments** (`found_xpath_list = []`,
-  `parent_nodes_stack = {}`) and updates the list/dict objects it received *in place*
-  (`found_xpath_list[-1] += …`, `found_xpath_list[-1] = …`, `del parent_nodes_stack[…]`), while
+  `parent_nodes_stack = {}`) and updates the list object it received *in place*
+  (`found_xpath_list[-1] += …`, `found_xpath_list[-1] = …`; before C19-b also
+  `del parent_nodes_stack[…]`), hands the *same* list/dict objects to some recursive calls, while
   other call sites pass fresh copies (`found_xpath_list + [x]`, `found_xpath_list[:-1]`,
   `{**parent_nodes_stack, …}`).  Values are immutable here, so the two objects are threaded as
   explicit state: every call returns its result **together with the final contents of the list
@@ -202,18 +207,14 @@ def keysLoop (call : Str → Val → Out) : List (Str × Val) → Found → PyM 
 section step
 variable (rec : Val → List Str → FL → PS → Out) (re : Bool)
 
-/-- `'..'`: `del` the last stack entry **in place**, continue in the new last entry with a copy
-of the path without its last element.  (The message of the `KeyError` meant for a short stack
-concatenates a list and a str, so `TypeError` is what is raised.) -/
+/-- `'..'`: continue in the node registered in the stack under the found xpath without its last
+element, with a copy of that shorter path and the **same** stack object (which is only read) -/
 def stepUp (rest : List Str) (fl : FL) (ps : PS) : Out :=
-  if ps.length < 2 then ⟨raiseOr re .TypeError, fl, ps⟩
-  else
-    let ps1 := ps.dropLast
-    match ps1.getLast? with
-    | Option.none => ⟨.error .Unsupported, fl, ps1⟩      -- unreachable: two entries at least
-    | some (_, target) =>
-      let o := rec target rest fl.dropLast ps1
-      ⟨o.res, fl, o.ps⟩
+  match (if fl.isEmpty then Option.none else lookup (keyOf fl.dropLast) ps) with
+  | Option.none => ⟨raiseOr re .KeyError, fl, ps⟩
+  | some target =>
+    let o := rec target rest fl.dropLast ps
+    ⟨o.res, fl, o.ps⟩
 
 /-- `[text()=v]` -/
 def stepText (node : Val) (tok : Str) (rest : List Str) (eq : Bool) (v : Str) (fl : FL) (ps : PS) : Out :=
@@ -241,12 +242,12 @@ def stepIdx (node : Val) (rest : List Str) (i : Int) (fl : FL) (ps : PS) : Out :
       | Option.none => ⟨.error .Unsupported, fl, ps⟩             -- unreachable
       | some child =>
         if isContainer child then
-          match fl.getLast? with
-          | Option.none => ⟨.error .IndexError, fl, ps⟩           -- `found_xpath_list[-1] += …` on []
-          | some l =>
-            let fl1 := setLast fl (l ++ XPath.bracket (intRepr i))
-            let o := rec child rest fl1 (push ps fl1 node)
-            ⟨o.res, o.fl, ps⟩
+          -- `if not len(found_xpath_list): found_xpath_list = [""]` rebinds the local name (the
+          -- received empty object stays as it is), then `found_xpath_list[-1] += "[i]"` in place
+          let cur : FL := if fl.isEmpty then [[]] else fl
+          let fl1 := setLast cur (cur.getLast?.getD [] ++ XPath.bracket (intRepr i))
+          let o := rec child rest fl1 (push ps fl1 node)
+          ⟨o.res, if fl.isEmpty then fl else o.fl, ps⟩
         else ⟨raiseOr re .IndexError, fl, ps⟩
   | .dict .. =>
     -- `if child_index:` … `if not child_name:`
